@@ -21,10 +21,10 @@ ASSUMPTIONS = [
 ]
 BOUNDS = {"quick": "<= 4 attempts over 1-2 transports, max_retries in {0,1,2} per transport, 7 outcomes per attempt (refused, transport handshake failure, ABORT, joined then lost cleanly/uncleanly, joined then left, stop() while joining), fatal flag per failure, stop() before any attempt; back-off lemma over all doubles",
           "thorough": "<= 6 attempts, 3 transports"}
-EXPECT_COVERS = ["stop:joining", "end:success", "end:exhausted", "end:stopped", "attempt:refused", "attempt:joined-lost", "fatal", "delay:lemma", "listeners"]
+EXPECT_COVERS = ["attempt:hs-fail-early", "stop:joining", "end:success", "end:exhausted", "end:stopped", "attempt:refused", "attempt:joined-lost", "fatal", "delay:lemma", "listeners"]
 BUDGET = {"quick": dict(wall_s=300, max_paths=40000, diff_samples=3), "thorough": dict(wall_s=2400, max_paths=500000)}
 
-OUTCOMES = ["refused", "hs-fail", "abort", "joined-lost", "joined-leave", "joined-lost-unclean", "stop-while-joining"]
+OUTCOMES = ["refused", "hs-fail", "abort", "joined-lost", "joined-leave", "joined-lost-unclean", "stop-while-joining", "hs-fail-early"]
 
 
 def _mk_endpoint(clock, log, idx):
@@ -99,7 +99,7 @@ class _TwEnv:
         self.eps[i].pending = None
         cd.errback(Failure(ConnectionRefusedError()))
 
-    def connect(self, i):
+    def connect(self, i, early=None):
         from twisted.python.failure import Failure
         from twisted.internet.error import ConnectionDone, ConnectionLost
         factory, cd = self.eps[i].pending
@@ -108,6 +108,10 @@ class _TwEnv:
         proto.log = NULLLOG
         tr = FakeTransport(Trace(), "X")
         proto.makeConnection(tr)
+        if early is not None:
+            # the peer's refusal is processed before the framework hands the connect result to the component
+            proto.dataReceived(early)
+            proto.connectionLost(Failure(ConnectionDone()))
         cd.callback(proto)
 
         class IO:
@@ -197,12 +201,16 @@ class _AioEnv:
         fut.set_exception(ConnectionRefusedError())
         wslib.run_loop(self.loop)
 
-    def connect(self, i):
+    def connect(self, i, early=None):
         factory, fut = self.pend.pop(i)
         proto = factory()
         proto.log = NULLLOG
         tr = FakeTransport(Trace(), "X")
         proto.connection_made(tr)
+        if early is not None:
+            # the peer's refusal is processed before the loop hands the create_connection() result to the component
+            proto.data_received(early)
+            proto.connection_lost(None)
         fut.set_result((tr, proto))
         loop = self.loop
         wslib.run_loop(loop)
@@ -310,12 +318,17 @@ def history(sx, ntrans, retries, A, with_main, stop_at, fw="twisted"):
             sx.check(gap <= 1e-6, "first-attempt-of-a-transport-is-immediate", info=dict(hinfo, gap=gap))
         sx.check(gap <= MAXD + 1e-6, "wait-between-attempts<=max_retry_delay", info=dict(hinfo, gap=gap))
         # --- scripted outcome
-        out = OUTCOMES[sx.choice("outcome%d" % a, len(OUTCOMES))]
+        # "hs-fail-early" (refusal processed before the connect result reaches the component) exists on asyncio only: create_connection() hands
+        # its result over through a future, a loop turn after connection_made(); a Twisted endpoint fires its Deferred inside connectionMade
+        out = OUTCOMES[sx.choice("outcome%d" % a, len(OUTCOMES) if fw == "asyncio" else len(OUTCOMES) - 1)]
         hist.append((ti, out))
         nf = len(fatal_flags)
         if out == "refused":
             env.refuse(ti)
             sx.cover("attempt:refused")
+        elif out == "hs-fail-early":
+            io = env.connect(ti, early=b"\x00\x00\x00\x00")
+            sx.cover("attempt:hs-fail-early")
         else:
             io = env.connect(ti)
             if out == "hs-fail":
